@@ -19,7 +19,7 @@ From Coq Require Import String.
 From CKC Require Import Base.Prelude Spec.Layout Spec.Poker.
 From CKC Require Import Gen.Enums Gen.HandRankMaps.
 From CKC Require Import Model.Five Model.HandRank.
-From CKC Require Import Proofs.FiveFacts Proofs.RankedFacts Proofs.C01 Proofs.C06 Proofs.C06Cards.
+From CKC Require Import Proofs.FiveFacts Proofs.RankedFacts Proofs.CombFacts Proofs.HandFacts Proofs.C01 Proofs.TableFacts Proofs.C02 Proofs.C06 Proofs.C06Cards.
 Open Scope N_scope.
 
 (* Invalid for both exactly when the value is 0 or above 7462 *)
@@ -105,6 +105,22 @@ Theorem C06_cards : forall chk ws,
   is_invalid (hr_from v) = false /\ is_a_valid_hand_rank (hr_from v) = true.
 Proof. exact cards_ok. Qed.
 
+(* six and seven distinct real cards: the reported rank carries the value of, and describes, the best five cards
+   the hand contains (composition with C02) *)
+Theorem C06_cards_six_seven : forall chk n ws,
+  (n = 6 \/ n = 7)%nat -> HandN n ws ->
+  exists s,
+    Subseq s ws /\ Hand5 s /\
+    let h := shape_of s in
+    let v := ordinal h in
+    v = best_value5 ws /\
+    rmap hr_from (hand_rank_value chk ws) = Ok (hr_from v) /\
+    rmap hr_from (hand_rank_value_validated chk ws) = Ok (hr_from v) /\
+    name_string (hr_name (hr_from v)) = category_name h /\
+    class_string (hr_class (hr_from v)) = class_name_spec h /\
+    is_invalid (hr_from v) = false.
+Proof. exact cards_n_ok. Qed.
+
 (* the spec text is independent of slot order *)
 Theorem C06_spec_perm : forall rs rs' fl,
   Permutation.Permutation rs rs' ->
@@ -164,3 +180,4 @@ Print Assumptions C06_ranges.
 Print Assumptions C06_consistent.
 Print Assumptions C06_cards.
 Print Assumptions C06_spec_perm.
+Print Assumptions C06_cards_six_seven.
